@@ -1,5 +1,7 @@
 import LyModel.Sib.Tree
 import LyModel.Sib.Rb
+import LyModel.Sib.RbDel
+import LyModel.Sib.RbMerge
 /-!
 driver ops of component `sib`:
 
@@ -78,6 +80,63 @@ def runScript (f : Forest) (ops : List String) : String :=
     | .found rc id => (acc.1 ++ " | " ++ rc.name ++ " F" ++ (match id with | some i => toString i | none => "-"), acc.2))
     ("", f)).1
 
+/-! ### op `rbs`: insert / unlink scripts on one system-ordered `int32` leaf-list, red-black shape after every op -/
+
+/-- an instance: value and creation serial (the identity `rb_find` looks for) -/
+abbrev RbInst := Int × Nat
+
+structure RbSt where
+  lyds : Rb.Lyds RbInst
+  /-- the instances in sibling order (kept separately: `lyd_insert_after_node` / `lyd_unlink_ignore_lyds`) -/
+  sibs : List RbInst
+  serial : Nat
+
+def rbGt (d x : RbInst) : Bool := decide (d.1 > x.1)
+
+def rbInsert (st : RbSt) (x : RbInst) : RbSt :=
+  { st with lyds := st.lyds.insert rbGt st.sibs.head? x,
+            sibs := st.sibs.takeWhile (fun e => !rbGt e x) ++ x :: st.sibs.dropWhile (fun e => !rbGt e x) }
+
+/-- `lyd_unlink`: the red-black node is the one `rb_find` returns for the data node -/
+def rbUnlink (st : RbSt) (i : Nat) : Option (RbInst × RbSt) :=
+  match st.sibs[i]? with
+  | none => none
+  | some x =>
+    let pos := if st.lyds.n ≤ 1 then some i
+      else Rb.find (fun d => if d.1 > x.1 then 1 else if d.1 < x.1 then -1 else 0) (fun d => d.2 == x.2) st.lyds.tree
+    match pos with
+    | none => none
+    | some p => some (x, { st with lyds := st.lyds.unlink p, sibs := st.sibs.eraseIdx i })
+
+def rbShow (st : RbSt) : String :=
+  let f : RbInst → String := fun d => toString d.1 ++ ":" ++ toString d.2
+  " | " ++ " ".intercalate (Rb.shape f st.lyds.tree) ++ (match st.lyds.tree with | .nil => " M-" | _ => " M0") ++ " V0 =" ++
+    String.join (st.sibs.map (fun d => " " ++ f d))
+
+def rbStep (acc : String × RbSt) (tok : String) : String × RbSt :=
+  let st := acc.2
+  let arg := (tok.drop 1).toString
+  match tok.take 1 |>.toString with
+  | "i" =>
+    match parseInt (bytesOfString arg) with
+    | none => (acc.1 ++ " | R:BadKey", st)
+    | some k =>
+      let st' := rbInsert { st with serial := st.serial + 1 } (k, st.serial)
+      (acc.1 ++ rbShow st', st')
+  | "u" =>
+    match arg.toNat?.bind (rbUnlink st) with
+    | none => (acc.1 ++ " | R:NoInst", st)
+    | some (_, st') => (acc.1 ++ rbShow st', st')
+  | "m" =>
+    -- `lyd_unlink_tree` + `lyd_insert_child` of the same node
+    -- (a lone instance keeps its metadata and its one-node tree while unlinked, and `lyd_insert_node` finds no leader)
+    match arg.toNat?.bind (rbUnlink st) with
+    | none => (acc.1 ++ " | R:NoInst", st)
+    | some (x, st') =>
+      let st'' := if st.sibs.length ≤ 1 then st else rbInsert st' x
+      (acc.1 ++ rbShow st'', st'')
+  | _ => (acc.1 ++ " | R:BadOp", st)
+
 def handle (op : String) (args : List String) : String :=
   match op, args with
   | "run", [variant, desc, _yang, script] =>
@@ -96,6 +155,22 @@ def handle (op : String) (args : List String) : String :=
       let t' := if ks.length < 2 then Rb.T.nil else t
       "ok " ++ " ".intercalate (Rb.shape (fun (k : Int) => toString k) t') ++ " | " ++
         " ".intercalate ((Rb.inorder t).map (fun (k : Int) => toString k))
+  | "rbs", [_variant, _desc, _yang, script] =>
+    "ok" ++ (((script.splitOn ",").filter (· ≠ "")).foldl rbStep ("", ⟨Rb.Lyds.empty, [], 0⟩)).1
+  | "rbm", [_variant, _desc, _yang, dscript, sscript] =>
+    -- two lists built by rbs scripts, then the second moved onto the first in one call (`lyds_merge`)
+    let run := fun (st : RbSt) (sc : String) => (((sc.splitOn ",").filter (· ≠ "")).foldl rbStep ("", st)).2
+    let d := run ⟨Rb.Lyds.empty, [], 0⟩ dscript
+    let dup := sscript.startsWith "D"
+    let s := run ⟨Rb.Lyds.empty, [], d.serial⟩ (if dup then (sscript.drop 1).toString else sscript)
+    match s.sibs with
+    | [] => "err Empty"
+    | [x] => if d.sibs.isEmpty then "err Empty" else "ok" ++ rbShow (rbInsert d x)     -- a single node: `lyd_insert_node`
+    | _ =>
+      if d.sibs.isEmpty then "err Empty" else
+      let t := Rb.mergeTree rbGt d.lyds.tree d.sibs (if dup then .nil else s.lyds.tree) s.sibs
+      "ok" ++ rbShow { d with lyds := ⟨t, d.sibs.length + s.sibs.length⟩, sibs := Rb.inorder t }
+  | "rbleak", [] => "ok 0"
   | _, _ => "err BadOp"
 
 end LyModel.Sib.Drv
